@@ -33,8 +33,9 @@ order <= 2 per axis, |centre| <= 1, |moment origin| <= 1:
 
 Tie to the proven models: for EVERY generated basis the analytic integrals are also compared with the exact Coq
 model (runner commands 2, 7, 9) and the evaluations at seeded grid points with commands 102 / 101 (values and the
-three first derivatives); a disagreement there is reported as a violation of kind `anchor-*` (it means that one
-half of the library left the model that the theorem same_function_objects talks about).
+three first derivatives).  The quadrature comparison is made regardless of the anchors; when it disagrees the anchor
+result is attached to the finding (it says WHICH half left the model the theorem same_function_objects talks about);
+an anchor disagreement alone (both halves changed consistently) is reported as a violation of kind `anchor:*`.
 
 Verdict: a VIOLATION is a basis on which some quadrature differs from the analytic value by more than the
 tolerance, or an anchor disagreement, or a valid request refused.  Cases are shrunk (fewer shells, primitives,
@@ -349,6 +350,7 @@ def eval_case(model, case, pool):
             res["detail"] = {"kind": "refused-valid-request", "check": nm, "impl": val}
             return res
     # ---- anchors: each half against the exact model ----------------------------------------------
+    anchor = None
     if model is not None:
         bsx = twoindex.basis_sx(basis)
         d = compare(S, model.call("(2 %s ())" % bsx), tol_abs=TOL)
@@ -398,12 +400,15 @@ def eval_case(model, case, pool):
                         d["check"] = "anchor-deriv (evaluate_deriv_basis %r vs exact model, command 101)" % (o,)
         if d is not None:
             d["kind"] = "anchor:" + d.get("kind", "value")
-            res["detail"] = d
-            return res
+            anchor = d
     # ---- quadrature of the evaluation side --------------------------------------------------------
     q = quadrature(pool, case)
     if "rejected" in q:
         res["detail"] = {"kind": "refused-valid-request", "check": "pointwise evaluation on the grid", "impl": q["rejected"]}
+        return res
+    if np.shape(q["S"]) != np.shape(S):
+        res["detail"] = {"kind": "shape", "check": "overlap", "quadrature_shape": list(np.shape(q["S"])),
+                         "analytic_shape": list(np.shape(S))}
         return res
     Ppsd, Psym = density_matrices(case, nfun)
     Ppsd, Psym = _fmat(Ppsd), _fmat(Psym)
@@ -426,7 +431,10 @@ def eval_case(model, case, pool):
             detail = dd
     # geometric convergence: error of the 2h rule (documentation only)
     errs["overlap_2h"] = float(np.abs(q["S2"] - S).max())
-    res["detail"] = detail
+    if detail is not None and anchor is not None:
+        # the quadrature found the mismatch between the halves; the anchor says which half left its model
+        detail["anchor"] = {k: anchor[k] for k in ("check", "index", "impl", "model", "abs_diff", "tol") if k in anchor}
+    res["detail"] = detail if detail is not None else anchor
     return res
 
 
@@ -462,9 +470,16 @@ def shrink_candidates(case, detail):
         yield c
 
 
-def shrink(model, pool, case, detail, budget=24):
+def _klass(detail):
+    k = detail.get("kind", "")
+    return "anchor" if k.startswith("anchor:") else ("refused" if k.startswith("refused") else "quadrature")
+
+
+def shrink(model, pool, case, detail, budget=18):
+    """greedy; a candidate is accepted only if it fails in the same way (quadrature / anchor / refusal)"""
     steps = 0
     improved = True
+    klass = _klass(detail)
     while improved and steps < budget:
         improved = False
         for cand in shrink_candidates(case, detail):
@@ -475,7 +490,7 @@ def shrink(model, pool, case, detail, budget=24):
                 out = eval_case(model, cand, pool)
             except Exception:  # noqa: BLE001
                 continue
-            if out.get("detail") is not None:
+            if out.get("detail") is not None and _klass(out["detail"]) == klass:
                 case, detail = cand, out["detail"]
                 improved = True
                 break
@@ -505,7 +520,7 @@ def run(rep, tier, seed, model, replay):
                 worst[k] = max(worst.get(k, 0.0), v)
             detail = out["detail"]
             if detail is not None:
-                if len(rep.violations) < 3:
+                if len(rep.violations) < 1 and replay is None:      # every candidate costs a full quadrature
                     case, detail = shrink(model, pool, case, detail)
                 if len(rep.violations) < 20:
                     rep.violation(case, detail)
